@@ -19,6 +19,22 @@ def _fitField(value):
     return 0.0
   return value
 
+def _formatRecord(values):
+  """Format four values as a record of four 15 character fields.
+
+  A magnitude of 1e100 or more is printed with a three digit exponent: it is given one decimal
+  less so that it still occupies exactly 15 characters and the following fields stay in place.
+
+  @param values Sequence of four energy or force values
+  @return Record terminated with newline"""
+  fields = []
+  for v in values:
+    field = u" % 14.7e" % v
+    if len(field) > 15:
+      field = u" % 14.6e" % v
+    fields.append(field)
+  return u"".join(fields) + u"\n"
+
 def _writePotential(potential, cutoff, gridPoints, meshResolution, out ):
   """Given a writeTABLE.Potential object, will write it to the given stream (out)
   in the correct DL_POLY TABLE file format.
@@ -53,7 +69,7 @@ def _writePotential(potential, cutoff, gridPoints, meshResolution, out ):
 
     if len(l) == 4:
       #List has 4 elements, dump a row
-      outputbuilder.write(dataTemplate % tuple(l))
+      outputbuilder.write(_formatRecord(l))
       #Reset the list
       l = []
 
@@ -66,7 +82,7 @@ def _writePotential(potential, cutoff, gridPoints, meshResolution, out ):
 
     if len(l) == 4:
       #List has 4 elements, dump a row
-      outputbuilder.write(dataTemplate % tuple(l))
+      outputbuilder.write(_formatRecord(l))
       #Reset the list
       l = []
 
